@@ -56,6 +56,10 @@ func DecodeSgpdSR(hdr BoxHeader, startPos uint64, sr bits.SliceReader) (Box, err
 		if descriptionLength == 0 {
 			return nil, fmt.Errorf("sgpd: invalid descriptionLength of 0")
 		}
+		if uint64(descriptionLength) > uint64(sr.NrRemainingBytes()) {
+			return nil, fmt.Errorf("sgpd: descriptionLength %d exceeds the %d bytes left in box",
+				descriptionLength, sr.NrRemainingBytes())
+		}
 		sgEntry, err := decodeSampleGroupEntry(b.GroupingType, descriptionLength, sr)
 		if err != nil {
 			return nil, err
